@@ -471,6 +471,14 @@ fn iter_script(rng: &mut Rng, b: &Board, out: &mut dyn Write, n: &mut usize) {
     writeln!(out, "{}", json!({"event": "IterNew", "fen": format!("{}", b), "all": all.iter().map(|m| mv_json(*m)).collect::<Vec<_>>()})).unwrap();
     *n += 1;
     log_len(&g, out, n);
+    // a mask may already be in place when the removals are made (nothing has been drawn yet)
+    if rng.chance(1, 3) {
+        let m = random_mask(rng, b);
+        g.set_iterator_mask(m);
+        writeln!(out, "{}", json!({"event": "SetMask", "mask": mask_json(m)})).unwrap();
+        *n += 1;
+        log_len(&g, out, n);
+    }
     // removals, beforehand
     let nrem = [0, 0, 1, 1, 2, 3][rng.below(6)];
     for _ in 0..nrem {
@@ -925,6 +933,18 @@ fn validate_chunk(rng: &mut Rng, events: usize, out: &mut dyn Write, progress: &
                 } else if roll == 3 {
                     wellformed = false;
                     text = (0..rng.below(40)).map(|_| FEN_NOISE[rng.below(FEN_NOISE.len())]).collect::<Vec<_>>().concat();
+                } else if roll == 4 {
+                    // one whole field replaced by, or prefixed with, noise (other fields stay well formed)
+                    wellformed = false;
+                    let mut fields: Vec<String> = text.split(' ').map(|x| x.to_string()).collect();
+                    let i = rng.below(fields.len());
+                    let noise = FEN_NOISE[rng.below(FEN_NOISE.len())].to_string();
+                    fields[i] = match rng.below(3) {
+                        0 => noise,
+                        1 => format!("{}{}", noise, fields[i]),
+                        _ => format!("{}{}", fields[i], noise),
+                    };
+                    text = fields.join(" ");
                 }
                 let mut ev = input.as_object().unwrap().clone();
                 ev.insert("event".into(), json!("Parse"));
